@@ -160,6 +160,12 @@ fn check_free(c: &Case, ctx: &Ctx) -> Outcome {
             args.push("-m");
             args.push(m);
         }
+        // every other run writes over the (longer) outputs of an earlier run with the same prefix
+        if (c.lead as usize + c.n_samples + c.k) % 2 == 0 {
+            for sfx in ["_indels.vcf", "_snps.fas", "_snps.vcf", "_pseudo_genomes.fas"] {
+                cli::plant_stale_output(&dir.join(format!("out{sfx}")));
+            }
+        }
         let o = run_ska(ctx, &dir, &args);
         must_ok(&o, "ska lo on isolated SNPs")?;
         let aln = read_aln(&dir.join("out_snps.fas")).map_err(Outcome::Fail)?;
@@ -284,7 +290,23 @@ fn check_ref(c: &Case, ctx: &Ctx) -> Outcome {
     let rseq = if c.ref_rc { model::revcomp(&refseq) } else { refseq.clone() };
     let r: Result<(usize, usize), Outcome> = (|| {
         must_ok(&build(ctx, &dir, "x", &m.samples, c.k, true, 1), "ska build")?;
-        cli::write_fasta(&dir.join("ref.fa"), &["refname".to_string()], &[rseq.clone()], if c.ref_wrap { Some(60) } else { None });
+        // Every fifth reference is a consensus-style sequence: an IUPAC ambiguity code stands midway between
+        // two neighbouring sites (>= k bases from both, so no k-mer that covers a site contains it). It must
+        // count as one reference position like any other letter.
+        let mut rtext = rseq.clone();
+        let mut rcodes: Vec<usize> = Vec::new();
+        if c.tail % 5 == 0 {
+            let mut ps: Vec<usize> = m.sites.iter().map(|(p, _)| if c.ref_rc { len - 1 - p } else { *p }).collect();
+            ps.sort();
+            for (i, w) in ps.windows(2).enumerate().take(3) {
+                let mid = (w[0] + w[1]) / 2;
+                if mid >= w[0] + c.k && mid + c.k <= w[1] {
+                    rtext[mid] = b"RYKM"[(i + c.k) % 4];
+                    rcodes.push(mid);
+                }
+            }
+        }
+        cli::write_fasta(&dir.join("ref.fa"), &["refname".to_string()], &[rtext], if c.ref_wrap { Some(60) } else { None });
         // Windows line endings in every fourth reference
         if (c.lead as usize + c.n_samples) % 4 == 0 {
             cli::to_crlf(&dir.join("ref.fa"));
@@ -318,6 +340,12 @@ fn check_ref(c: &Case, ctx: &Ctx) -> Outcome {
         } else if let Some(m) = m_arg(c.m_sel) {
             args.push("-m");
             args.push(m);
+        }
+        // every other run writes over the (longer) outputs of an earlier run with the same prefix
+        if (c.lead as usize + c.n_samples + c.k) % 2 == 0 {
+            for sfx in ["_indels.vcf", "_snps.fas", "_snps.vcf", "_pseudo_genomes.fas"] {
+                cli::plant_stale_output(&dir.join(format!("out{sfx}")));
+            }
         }
         let o = run_ska(ctx, &dir, &args);
         must_ok(&o, "ska lo -r on isolated SNPs")?;
@@ -379,6 +407,8 @@ fn check_ref(c: &Case, ctx: &Ctx) -> Outcome {
                     if ch != b'-' && ch != b'N' && ch != truth[&p0][j] {
                         return Err(Outcome::Fail(format!("pseudo-genome of sample {j} has {} at called position {}, true base {}", ch as char, p0 + 1, truth[&p0][j] as char)));
                     }
+                } else if rcodes.contains(&p0) {
+                    // an ambiguity code of the reference: one position wide; what letter stands there is not asserted
                 } else if s[p0] != rseq[p0] {
                     return Err(Outcome::Fail(format!("pseudo-genome of sample {j} differs from the reference at uncalled position {}", p0 + 1)));
                 }
